@@ -1,2 +1,730 @@
-// C25 placeholder translation unit (own model-based target to be added); upstream txgraph simulation is compiled in via c25.upstream
+// C25 — The transaction graph answers like a naive graph with a consistent linearization.
+// Oracle: an own naive model (per level: presence bitset + transitive ancestor/descendant bit matrices; shared fee table), in
+// lock-step with TxGraph; structural answers must be equal on MAIN and TOP; ordering answers (CompareMainOrder, GetCluster order,
+// chunk feerates, BlockBuilder sequence with and without Skip, worst chunk, main/staging diagrams) must all be explained by ONE
+// topological linearization per cluster with connected chunks; Trim post-conditions. The model uses no /repo code (no DepGraph).
+// The upstream simulation (src/test/fuzz/txgraph.cpp) runs as supplementary stage up_txgraph (c25.upstream).
 #include <engine/verif.h>
+#include <kits/linref.h>
+
+#include <txgraph.h>
+#include <util/feefrac.h>
+
+#include <algorithm>
+#include <array>
+#include <bitset>
+#include <cstdint>
+#include <map>
+#include <memory>
+#include <optional>
+#include <set>
+#include <string>
+#include <vector>
+
+namespace {
+
+using verif::linref::FS;
+using verif::linref::cmp_feerate;
+using verif::linref::compare_diagrams;
+
+constexpr int MAXTX = 96; // more than MAX_CLUSTER_COUNT_LIMIT so that oversized clusters can always be built
+using Bits = std::bitset<MAXTX>;
+
+struct SimTx : public TxGraph::Ref {
+    int id{-1};
+    uint64_t key{0};
+    SimTx() noexcept = default;
+    SimTx(int i, uint64_t k) noexcept : id(i), key(k) {}
+    SimTx(SimTx&& o) noexcept : TxGraph::Ref(std::move(o)), id(o.id), key(o.key) {}
+};
+
+/** naive graph of one level */
+struct LevelModel {
+    Bits present;
+    std::array<Bits, MAXTX> anc{}, desc{}; // include the transaction itself; rows of absent transactions are empty
+
+    void add(int i) { present.set(i); anc[i].reset(); desc[i].reset(); anc[i].set(i); desc[i].set(i); }
+    void remove(int i)
+    {
+        present.reset(i);
+        for (int j = 0; j < MAXTX; ++j) { anc[j].reset(i); desc[j].reset(i); }
+        anc[i].reset(); desc[i].reset();
+    }
+    void add_dep(int p, int c)
+    {
+        Bits A = anc[p], D = desc[c];
+        for (int a = 0; a < MAXTX; ++a) if (A[a]) desc[a] |= D;
+        for (int d = 0; d < MAXTX; ++d) if (D[d]) anc[d] |= A;
+    }
+    Bits component(int i) const
+    {
+        Bits comp, todo;
+        todo.set(i);
+        while (todo.any()) {
+            Bits next;
+            for (int j = 0; j < MAXTX; ++j) if (todo[j]) { comp.set(j); next |= anc[j] | desc[j]; }
+            todo = next & ~comp;
+        }
+        return comp;
+    }
+    std::vector<Bits> components() const
+    {
+        std::vector<Bits> out;
+        Bits left = present;
+        for (int i = 0; i < MAXTX; ++i) if (left[i]) { Bits c = component(i); out.push_back(c); left &= ~c; }
+        return out;
+    }
+    /** connectivity of a subset through ancestor/descendant relations among its members */
+    bool connected(const Bits& set) const
+    {
+        if (set.count() <= 1) return true;
+        int first = 0;
+        while (!set[first]) ++first;
+        Bits comp, todo;
+        todo.set(first);
+        while (todo.any()) {
+            Bits next;
+            for (int j = 0; j < MAXTX; ++j) if (todo[j]) { comp.set(j); next |= (anc[j] | desc[j]) & set; }
+            todo = next & ~comp;
+        }
+        return comp == set;
+    }
+};
+
+struct Builder {
+    std::unique_ptr<TxGraph::BlockBuilder> b;
+    Bits included, done;
+    std::optional<FS> last;
+};
+
+struct Sim {
+    verif::Src& s;
+    verif::Stats& st;
+    unsigned max_count;
+    uint64_t max_size;
+    std::unique_ptr<TxGraph> real;
+    std::array<std::unique_ptr<SimTx>, MAXTX> refs; // slot -> Ref object (alive from AddTransaction until destruction)
+    std::array<int64_t, MAXTX> fee{};
+    std::array<int32_t, MAXTX> size{};
+    LevelModel main;
+    std::optional<LevelModel> staging;
+    bool main_oversized_frozen{false}; // value of IsOversized(MAIN) while staging exists (see txgraph.h: not cleared by Ref destruction)
+    std::vector<Builder> builders;
+    SimTx empty_ref;
+    uint64_t key_counter{1};
+    // counters for classes / non-triviality
+    unsigned n_staging{0}, n_commit{0}, n_abort{0}, n_oversized_seen{0}, n_trim_effective{0}, n_destroy_staging{0}, n_moves{0}, n_fullchecks{0}, n_diagrams{0}, n_skip_walks{0},
+        n_trim_in_staging{0};
+    size_t max_present{0};
+
+    Sim(verif::Src& s_, verif::Stats& st_) : s(s_), st(st_) {}
+
+    LevelModel& top() { return staging ? *staging : main; }
+    LevelModel& lvl(TxGraph::Level l) { return l == TxGraph::Level::MAIN ? main : top(); }
+    static int id_of(const TxGraph::Ref* r) { return static_cast<const SimTx*>(r)->id; }
+
+    bool computed_oversized(const LevelModel& m) const
+    {
+        for (auto& c : m.components()) {
+            if (c.count() > max_count) return true;
+            uint64_t tot = 0;
+            for (int i = 0; i < MAXTX; ++i) if (c[i]) tot += uint64_t(size[i]);
+            if (tot > max_size) return true;
+        }
+        return false;
+    }
+    bool expect_oversized(TxGraph::Level l)
+    {
+        if (l == TxGraph::Level::MAIN && staging) return main_oversized_frozen;
+        return computed_oversized(lvl(l));
+    }
+    bool present_anywhere(int i) const { return main.present[i] || (staging && staging->present[i]); }
+
+    /** pick a Ref: one that exists somewhere, one that was removed but not destroyed, or the empty Ref (id -1) */
+    int pick()
+    {
+        std::vector<int> alive;
+        for (int i = 0; i < MAXTX; ++i) if (refs[i]) alive.push_back(i);
+        size_t k = s.index(alive.size() + 1);
+        return k == alive.size() ? -1 : alive[k];
+    }
+    SimTx& ref(int id) { return id < 0 ? empty_ref : *refs[id]; }
+
+    std::vector<int> ids(const std::vector<TxGraph::Ref*>& v, const LevelModel& m, const char* what)
+    {
+        std::vector<int> out;
+        Bits seen;
+        for (auto* r : v) {
+            VCHECK(r != nullptr, "c25.structure", what, "returned a null Ref pointer");
+            int i = id_of(r);
+            VCHECK(i >= 0 && i < MAXTX && refs[i].get() == r, "c25.structure", what, "returned a pointer that is not the current location of a live Ref; id", i);
+            VCHECK(m.present[i], "c25.structure", what, "returned a transaction that does not exist at that level; id", i);
+            VCHECK(!seen[i], "c25.structure", what, "returned a transaction twice; id", i);
+            seen.set(i);
+            out.push_back(i);
+        }
+        return out;
+    }
+    static Bits to_bits(const std::vector<int>& v) { Bits b; for (int i : v) b.set(i); return b; }
+    FS fs_of(int i) const { return FS{fee[i], size[i]}; }
+    FS sum_of(const Bits& b) const { FS r; for (int i = 0; i < MAXTX; ++i) if (b[i]) { r.fee += fee[i]; r.size += size[i]; } return r; }
+    static bool same(const FeeFrac& f, const FS& x) { return f.fee == x.fee && f.size == x.size; }
+
+    // ------------------------------------------------------------------------------------------------------ mutators
+    void op_add()
+    {
+        int slot = -1;
+        for (int i = 0; i < MAXTX; ++i) if (!refs[i]) { slot = i; break; }
+        if (slot < 0) return;
+        if (s.chance(40)) { fee[slot] = s.range<int64_t>(-0x8000000000000, 0x7ffffffffffff); size[slot] = s.range<int32_t>(1, 0x3fffff); }
+        else { fee[slot] = s.range<int64_t>(0, 40); size[slot] = s.range<int32_t>(1, 8); }
+        refs[slot] = std::make_unique<SimTx>(slot, (s.range<uint64_t>(0, 0xffff) << 32) | key_counter++); // unique; tie-break order unrelated to creation order
+        real->AddTransaction(*refs[slot], FeePerWeight{fee[slot], size[slot]});
+        top().add(slot);
+        st.note("add#", slot, "(", fee[slot], "/", size[slot], ")");
+    }
+    void op_dep()
+    {
+        int p = pick(), c = pick();
+        auto& t = top();
+        bool both = p >= 0 && c >= 0 && t.present[p] && t.present[c];
+        if (both && t.desc[c][p]) return; // would create a cycle (includes p == c): not allowed by the interface
+        real->AddDependency(ref(p), ref(c));
+        if (both) t.add_dep(p, c);
+        st.note("dep ", p, "->", c, both ? "" : "(no-op)");
+    }
+    /** close a set under ancestors (or descendants) in the given levels */
+    Bits close(Bits set, bool down, std::initializer_list<const LevelModel*> levels)
+    {
+        while (true) {
+            Bits next = set;
+            for (auto* m : levels) for (int i = 0; i < MAXTX; ++i) if (set[i] && m->present[i]) next |= down ? m->desc[i] : m->anc[i];
+            if (next == set) return set;
+            set = next;
+        }
+    }
+    std::vector<int> shuffled(const Bits& b)
+    {
+        std::vector<int> v;
+        for (int i = 0; i < MAXTX; ++i) if (b[i]) v.push_back(i);
+        for (size_t i = v.size(); i > 1; --i) std::swap(v[i - 1], v[s.index(i)]);
+        return v;
+    }
+    void op_remove()
+    {
+        // together with a transaction either all its ancestors or all its descendants are removed (txgraph.h: otherwise the internal
+        // reordering of removals and dependency additions is observable)
+        int r = pick();
+        bool down = s.boolean();
+        if (r < 0 || !top().present[r]) { real->RemoveTransaction(ref(r)); st.note("remove ", r, "(no-op)"); return; }
+        Bits seed; seed.set(r);
+        Bits set = close(seed, down, {&top()});
+        for (int i : shuffled(set)) { real->RemoveTransaction(*refs[i]); top().remove(i); }
+        st.note("remove ", r, down ? "+desc" : "+anc", " n=", set.count());
+    }
+    void op_destroy_removed()
+    {
+        std::vector<int> cand;
+        for (int i = 0; i < MAXTX; ++i) if (refs[i] && !present_anywhere(i)) cand.push_back(i);
+        if (cand.empty()) return;
+        int i = cand[s.index(cand.size())];
+        refs[i].reset();
+        st.note("~ref(removed)#", i);
+    }
+    void op_destroy_any()
+    {
+        int r = pick();
+        if (r < 0) return;
+        bool down = s.boolean();
+        Bits seed; seed.set(r);
+        Bits set = staging ? close(seed, down, {&main, &*staging}) : close(seed, down, {&main});
+        bool any_present = false;
+        for (int i : shuffled(set)) {
+            if (present_anywhere(i)) any_present = true;
+            refs[i].reset();
+            if (main.present[i]) main.remove(i);
+            if (staging && staging->present[i]) staging->remove(i);
+        }
+        if (staging && any_present) { n_destroy_staging++; st.cls("ref-destroyed-while-staging"); }
+        st.note("~ref#", r, down ? "+desc" : "+anc", " n=", set.count());
+    }
+    void op_setfee()
+    {
+        int r = pick();
+        int64_t f = s.chance(40) ? s.range<int64_t>(-0x8000000000000, 0x7ffffffffffff) : s.range<int64_t>(0, 40);
+        real->SetTransactionFee(ref(r), f);
+        if (r >= 0 && present_anywhere(r)) fee[r] = f;
+        st.note("setfee#", r, "=", f);
+    }
+    void op_move_ref()
+    {
+        int r = pick();
+        if (r < 0) return;
+        auto moved = std::make_unique<SimTx>(std::move(*refs[r]));
+        refs[r] = std::move(moved); // destroys the moved-from (now empty) object
+        n_moves++;
+        if (staging) st.cls("ref-moved-while-staging");
+        st.note("move-ref#", r);
+    }
+    void op_start_staging()
+    {
+        main_oversized_frozen = computed_oversized(main);
+        real->StartStaging();
+        staging = main;
+        n_staging++;
+        st.note("StartStaging");
+    }
+    void op_commit() { real->CommitStaging(); main = *staging; staging.reset(); n_commit++; st.note("Commit"); }
+    void op_abort() { real->AbortStaging(); staging.reset(); n_abort++; st.note("Abort"); }
+    void op_dowork() { uint64_t c = s.chance(128) ? s.range<uint64_t>(0, 255) : s.range<uint64_t>(0, 200000); bool done = real->DoWork(c); st.note("DoWork(", c, ")=", done); }
+
+    void op_trim()
+    {
+        auto& t = top();
+        bool was = computed_oversized(t);
+        auto removed_refs = real->Trim();
+        st.steps++;
+        if (!was) { VCHECK(removed_refs.empty(), "c25.trim", "Trim removed", removed_refs.size(), "transactions from a graph that was not oversized"); st.note("Trim(no-op)"); return; }
+        auto removed = ids(removed_refs, t, "Trim");
+        Bits rem = to_bits(removed);
+        VCHECK(rem.any(), "c25.trim", "Trim removed nothing from an oversized graph");
+        for (int i : removed) VCHECK((t.desc[i] & ~rem).none(), "c25.trim", "removed set is not closed under descendants: transaction", i);
+        for (int i : removed) t.remove(i);
+        VCHECK(!computed_oversized(t), "c25.trim", "a cluster still exceeds the count/size limit after Trim; removed", removed.size());
+        VCHECK(!real->IsOversized(TxGraph::Level::TOP), "c25.trim", "IsOversized(TOP) still true after Trim");
+        n_trim_effective++;
+        if (staging) n_trim_in_staging++;
+        st.note("Trim removed ", removed.size());
+    }
+
+    /** join clusters until something is oversized (keeps oversize + Trim frequent even with large limits) */
+    void op_make_oversized()
+    {
+        auto& t = top();
+        auto comps = t.components();
+        if (t.present.count() <= max_count || comps.size() < 2) return;
+        unsigned links = s.range<unsigned>(1, 6);
+        for (unsigned k = 0; k < links; ++k) {
+            comps = t.components();
+            if (comps.size() < 2) break;
+            size_t a = s.index(comps.size()), b = s.index(comps.size() - 1);
+            if (b >= a) ++b;
+            auto pickin = [&](const Bits& c) { std::vector<int> v; for (int i = 0; i < MAXTX; ++i) if (c[i]) v.push_back(i); return v[s.index(v.size())]; };
+            int p = pickin(comps[a]), c = pickin(comps[b]);
+            real->AddDependency(*refs[p], *refs[c]); // different clusters: cannot create a cycle
+            t.add_dep(p, c);
+        }
+        st.note("link-clusters x", links);
+    }
+
+    // ------------------------------------------------------------------------------------------------------ inspectors
+    void op_inspect()
+    {
+        TxGraph::Level L = s.boolean() ? TxGraph::Level::MAIN : TxGraph::Level::TOP;
+        auto& m = lvl(L);
+        bool over = expect_oversized(L);
+        unsigned which = s.range<unsigned>(0, 11);
+        st.steps++;
+        switch (which) {
+        case 0: VCHECK(real->GetTransactionCount(L) == m.present.count(), "c25.structure", "GetTransactionCount", real->GetTransactionCount(L), m.present.count()); break;
+        case 1: { int r = pick(); bool e = real->Exists(ref(r), L); VCHECK(e == (r >= 0 && m.present[r]), "c25.structure", "Exists(#", r, ") =", e); break; }
+        case 2: { bool o = real->IsOversized(L); VCHECK(o == over, "c25.oversized", "IsOversized", (L == TxGraph::Level::MAIN ? "MAIN" : "TOP"), "impl", o, "model", over, "staging", bool(staging)); if (o) n_oversized_seen++; break; }
+        case 3: {
+            int r = pick();
+            auto f = real->GetIndividualFeerate(ref(r));
+            if (r >= 0 && present_anywhere(r)) VCHECK(f.fee == fee[r] && f.size == size[r], "c25.structure", "GetIndividualFeerate(#", r, ")", f.fee, f.size, "model", fee[r], size[r]);
+            else VCHECK(f.IsEmpty() && f.fee == 0, "c25.structure", "GetIndividualFeerate of a non-existing transaction is not empty");
+            break;
+        }
+        case 4: case 5: {
+            if (over) break;
+            int r = pick();
+            bool down = which == 5;
+            auto got = ids(down ? real->GetDescendants(ref(r), L) : real->GetAncestors(ref(r), L), m, "GetAncestors/GetDescendants");
+            Bits exp = (r >= 0 && m.present[r]) ? (down ? m.desc[r] : m.anc[r]) : Bits{};
+            VCHECK(to_bits(got) == exp, "c25.structure", down ? "GetDescendants" : "GetAncestors", "of #", r, "differs from the model: got", got.size(), "expected", exp.count());
+            break;
+        }
+        case 6: {
+            if (over) break;
+            bool down = s.boolean();
+            std::vector<const TxGraph::Ref*> args;
+            Bits exp;
+            size_t n = s.range<size_t>(0, 8);
+            for (size_t k = 0; k < n; ++k) { int r = pick(); args.push_back(&ref(r)); if (r >= 0 && m.present[r]) exp |= down ? m.desc[r] : m.anc[r]; }
+            auto got = ids(down ? real->GetDescendantsUnion(args, L) : real->GetAncestorsUnion(args, L), m, "Get*Union");
+            VCHECK(to_bits(got) == exp, "c25.structure", "GetAncestorsUnion/GetDescendantsUnion differs from the model");
+            break;
+        }
+        case 7: {
+            if (over) break;
+            int r = pick();
+            auto got = ids(real->GetCluster(ref(r), L), m, "GetCluster");
+            Bits exp = (r >= 0 && m.present[r]) ? m.component(r) : Bits{};
+            VCHECK(to_bits(got) == exp, "c25.structure", "GetCluster(#", r, ") differs from the model component: got", got.size(), "expected", exp.count());
+            check_cluster_order(got, m, "GetCluster");
+            break;
+        }
+        case 8: VCHECK(real->HaveStaging() == bool(staging), "c25.structure", "HaveStaging"); break;
+        case 9: {
+            if (expect_oversized(TxGraph::Level::MAIN)) break;
+            int a = pick(), b = pick();
+            if (a < 0 || b < 0 || !main.present[a] || !main.present[b]) break;
+            auto c = real->CompareMainOrder(ref(a), ref(b));
+            auto c2 = real->CompareMainOrder(ref(b), ref(a));
+            VCHECK((a == b) == (c == 0), "c25.order", "CompareMainOrder: distinct transactions compare equal (or identical ones unequal)", a, b);
+            VCHECK((c < 0) == (c2 > 0) && (c > 0) == (c2 < 0), "c25.order", "CompareMainOrder is not antisymmetric", a, b);
+            if (a != b && main.anc[b][a]) VCHECK(c < 0, "c25.order", "an ancestor does not sort before its descendant", a, b);
+            if (a != b && main.desc[b][a]) VCHECK(c > 0, "c25.order", "a descendant does not sort after its ancestor", a, b);
+            break;
+        }
+        case 10: {
+            if (over) break;
+            std::vector<const TxGraph::Ref*> args;
+            std::set<int> reps;
+            size_t n = s.range<size_t>(0, 12);
+            for (size_t k = 0; k < n; ++k) {
+                int r = pick(); args.push_back(&ref(r));
+                if (r >= 0 && m.present[r]) { Bits c = m.component(r); int f = 0; while (!c[f]) ++f; reps.insert(f); }
+            }
+            auto got = real->CountDistinctClusters(args, L);
+            VCHECK(got == reps.size(), "c25.structure", "CountDistinctClusters", got, "model", reps.size());
+            break;
+        }
+        default: {
+            size_t u = real->GetMainMemoryUsage();
+            VCHECK((u == 0) == main.present.none() || staging, "c25.structure", "GetMainMemoryUsage zero/non-zero does not match emptiness of main", u);
+            break;
+        }
+        }
+    }
+
+    /** a cluster listing must be topological: every transaction after all its ancestors */
+    void check_cluster_order(const std::vector<int>& order, const LevelModel& m, const char* what)
+    {
+        Bits placed;
+        uint64_t tot = 0;
+        for (int i : order) {
+            VCHECK((m.anc[i] & ~placed & ~Bits{}.set(i)).none(), "c25.order", what, "lists transaction", i, "before one of its ancestors");
+            placed.set(i);
+            tot += uint64_t(size[i]);
+        }
+        VCHECK(order.size() <= max_count && tot <= max_size, "c25.limits", what, "returned a cluster beyond the configured limits: count", order.size(), "size", tot);
+    }
+
+    // ------------------------------------------------------------------------------------------------------ block builders
+    void op_builder_new() { builders.push_back(Builder{real->GetBlockBuilder(), {}, {}, std::nullopt}); st.note("builder+"); }
+    void op_builder_drop() { builders.erase(builders.begin() + s.index(builders.size())); st.note("builder-"); }
+    void op_builder_step()
+    {
+        auto& bd = builders[s.index(builders.size())];
+        auto chunk = bd.b->GetCurrentChunk();
+        st.steps++;
+        Bits inc = bd.included, done = bd.done;
+        if (chunk) {
+            auto members = ids(chunk->first, main, "BlockBuilder::GetCurrentChunk");
+            FS sum;
+            FS rate{chunk->second.fee, chunk->second.size};
+            if (bd.last) VCHECK(cmp_feerate(rate, *bd.last) <= 0, "c25.builder", "chunk feerates are not non-increasing along the builder");
+            for (int i : members) {
+                VCHECK(!done[i], "c25.builder", "transaction reported twice by a builder", i);
+                done.set(i); inc.set(i);
+                VCHECK((main.anc[i] & ~inc).none(), "c25.builder", "included chunks are not topologically closed: missing ancestor of", i);
+                sum.fee += fee[i]; sum.size += size[i];
+            }
+            VCHECK(sum.fee == rate.fee && sum.size == rate.size, "c25.builder", "chunk feerate is not the sum of its transactions");
+            bd.last = rate;
+            auto again = bd.b->GetCurrentChunk();
+            VCHECK(again && again->first == chunk->first && again->second == chunk->second, "c25.builder", "GetCurrentChunk is not stable");
+        } else if (bd.done == bd.included) {
+            VCHECK(bd.done == main.present, "c25.builder", "builder ended without reporting every transaction although nothing was skipped");
+        }
+        if (s.chance(64)) { bd.b->Skip(); st.cls("builder-skip"); } else { bd.b->Include(); bd.included = inc; }
+        bd.done = done;
+        st.note("builder-step");
+    }
+
+    // ------------------------------------------------------------------------------------------------------ full consistency check
+    struct ChunkRef { int cluster; std::vector<int> txs; FS rate; };
+
+    /** strict stack chunking of a linearization (merge while the new group has a strictly higher feerate) */
+    std::vector<std::pair<FS, std::vector<int>>> strict_chunks(const std::vector<int>& lin) const
+    {
+        std::vector<std::pair<FS, std::vector<int>>> out;
+        for (int i : lin) {
+            std::pair<FS, std::vector<int>> cur{fs_of(i), {i}};
+            while (!out.empty() && cmp_feerate(cur.first, out.back().first) > 0) {
+                auto prev = std::move(out.back()); out.pop_back();
+                prev.first.fee += cur.first.fee; prev.first.size += cur.first.size;
+                prev.second.insert(prev.second.end(), cur.second.begin(), cur.second.end());
+                cur = std::move(prev);
+            }
+            out.push_back(std::move(cur));
+        }
+        return out;
+    }
+
+    void full_check()
+    {
+        n_fullchecks++;
+        using Level = TxGraph::Level;
+        // structural equality on both levels
+        for (Level L : {Level::MAIN, Level::TOP}) {
+            if (L == Level::TOP && !staging) continue; // TOP aliases MAIN
+            auto& m = lvl(L);
+            st.steps++;
+            VCHECK(real->GetTransactionCount(L) == m.present.count(), "c25.structure", "GetTransactionCount (full check)");
+            bool over = expect_oversized(L);
+            VCHECK(real->IsOversized(L) == over, "c25.oversized", "IsOversized (full check)", (L == Level::MAIN ? "MAIN" : "TOP"), "model", over, "staging", bool(staging));
+            if (over) { n_oversized_seen++; continue; }
+            for (int i = 0; i < MAXTX; ++i) {
+                if (!refs[i]) continue;
+                VCHECK(real->Exists(*refs[i], L) == m.present[i], "c25.structure", "Exists (full check) #", i);
+                if (!m.present[i]) continue;
+                auto f = real->GetIndividualFeerate(*refs[i]);
+                VCHECK(f.fee == fee[i] && f.size == size[i], "c25.structure", "GetIndividualFeerate (full check) #", i);
+                VCHECK(to_bits(ids(real->GetAncestors(*refs[i], L), m, "GetAncestors")) == m.anc[i], "c25.structure", "GetAncestors (full check) #", i);
+                VCHECK(to_bits(ids(real->GetDescendants(*refs[i], L), m, "GetDescendants")) == m.desc[i], "c25.structure", "GetDescendants (full check) #", i);
+            }
+        }
+        std::map<std::pair<int64_t, int64_t>, int> main_chunk_multiset; // (fee,size) -> count, from observed main chunks
+        std::vector<ChunkRef> runs;                                      // global chunk sequence of main in order
+        bool main_ok = !expect_oversized(Level::MAIN);
+        if (main_ok) {
+            // (1) one total order
+            std::vector<int> L;
+            for (int i = 0; i < MAXTX; ++i) if (main.present[i]) L.push_back(i);
+            for (size_t i = L.size(); i > 1; --i) std::swap(L[i - 1], L[s.index(i)]); // random start so that the comparison sequence varies
+            std::sort(L.begin(), L.end(), [&](int a, int b) { return real->CompareMainOrder(*refs[a], *refs[b]) < 0; });
+            std::vector<int> posn(MAXTX, -1);
+            for (size_t k = 0; k < L.size(); ++k) posn[L[k]] = int(k);
+            size_t stride = L.size() <= 40 ? 1 : 1 + L.size() / 16;
+            for (size_t a = 0; a < L.size(); ++a) for (size_t b = a + 1; b < L.size(); b += (b == a + 1 ? 1 : stride)) {
+                st.steps++;
+                VCHECK(real->CompareMainOrder(*refs[L[a]], *refs[L[b]]) < 0 && real->CompareMainOrder(*refs[L[b]], *refs[L[a]]) > 0, "c25.order",
+                       "CompareMainOrder is not a consistent total order (sorted positions", a, b, ")");
+            }
+            // (2) topological
+            for (int i : L) for (int a = 0; a < MAXTX; ++a) if (main.anc[i][a] && a != i) VCHECK(posn[a] < posn[i], "c25.order", "main order places", i, "before its ancestor", a);
+            // (3) one linearization per cluster: GetCluster order of every member == restriction of the total order
+            auto comps = main.components();
+            std::vector<int> cluster_of(MAXTX, -1);
+            std::vector<std::vector<int>> clin(comps.size());
+            for (size_t c = 0; c < comps.size(); ++c) {
+                for (int i : L) if (comps[c][i]) { clin[c].push_back(i); cluster_of[i] = int(c); }
+                for (int i : clin[c]) {
+                    st.steps++;
+                    auto got = ids(real->GetCluster(*refs[i], Level::MAIN), main, "GetCluster(MAIN)");
+                    VCHECK(got == clin[c], "c25.order", "GetCluster(MAIN) of #", i, "is not the main order restricted to its component (size", got.size(), "vs", clin[c].size(), ")");
+                }
+                check_cluster_order(clin[c], main, "main cluster linearization");
+            }
+            // (4) chunks as reported by GetMainChunkFeerate: contiguous groups of each cluster linearization
+            std::vector<int> chunk_index(MAXTX, -1);
+            std::vector<std::vector<ChunkRef>> cchunks(comps.size());
+            for (size_t c = 0; c < comps.size(); ++c) {
+                size_t k = 0;
+                std::vector<FS> impl_diagram;
+                while (k < clin[c].size()) {
+                    auto f = real->GetMainChunkFeerate(*refs[clin[c][k]]);
+                    ChunkRef ch{int(c), {}, FS{f.fee, f.size}};
+                    FS acc;
+                    VCHECK(f.size > 0, "c25.chunks", "GetMainChunkFeerate returned an empty feerate for an existing transaction", clin[c][k]);
+                    while (k < clin[c].size() && acc.size < f.size) {
+                        int i = clin[c][k];
+                        auto fi = real->GetMainChunkFeerate(*refs[i]);
+                        VCHECK(fi.fee == f.fee && fi.size == f.size, "c25.chunks", "transactions of one chunk report different chunk feerates (cluster", c, "position", k, ")");
+                        acc.fee += fee[i]; acc.size += size[i];
+                        ch.txs.push_back(i);
+                        ++k;
+                    }
+                    st.steps++;
+                    VCHECK(acc.size == f.size && acc.fee == f.fee, "c25.chunks", "reported chunk feerate is not the sum of a contiguous group of the cluster linearization (cluster", c, ")");
+                    VCHECK(main.connected(to_bits(ch.txs)), "c25.chunks", "a chunk of the main linearization is not connected (cluster", c, "chunk size", ch.txs.size(), ")");
+                    if (!impl_diagram.empty()) VCHECK(cmp_feerate(impl_diagram.back(), ch.rate) >= 0, "c25.chunks", "chunk feerates increase within a cluster linearization (cluster", c, ")");
+                    impl_diagram.push_back(ch.rate);
+                    for (int i : ch.txs) chunk_index[i] = int(cchunks[c].size());
+                    main_chunk_multiset[{int64_t(ch.rate.fee), ch.rate.size}]++;
+                    cchunks[c].push_back(std::move(ch));
+                }
+                // the reported chunks are the chunking of that linearization (definition: highest-feerate prefix, repeatedly)
+                verif::linref::RefGraph rg;
+                rg.tx.resize(MAXTX);
+                for (int i : clin[c]) { rg.tx[i].fee = fee[i]; rg.tx[i].size = size[i]; }
+                std::vector<uint32_t> lin32(clin[c].begin(), clin[c].end());
+                VCHECK(compare_diagrams(impl_diagram, verif::linref::diagram_of(rg, lin32)) == 0, "c25.chunks", "reported chunk feerates do not form the feerate diagram of the cluster linearization (cluster", c, ")");
+            }
+            // (5) global order = sequence of whole chunks, feerates non-increasing
+            for (size_t k = 0; k < L.size();) {
+                int c = cluster_of[L[k]], ci = chunk_index[L[k]];
+                const ChunkRef& ch = cchunks[c][ci];
+                for (size_t j = 0; j < ch.txs.size(); ++j) VCHECK(k + j < L.size() && L[k + j] == ch.txs[j], "c25.order", "a chunk is not contiguous (in cluster order) within the main order; cluster", c, "chunk", ci);
+                if (!runs.empty()) VCHECK(cmp_feerate(runs.back().rate, ch.rate) >= 0, "c25.order", "chunk feerates increase along the main order at position", k);
+                if (ci > 0) VCHECK(posn[cchunks[c][ci - 1].txs[0]] < int(k), "c25.order", "chunks of one cluster appear out of order in the main order");
+                runs.push_back(ch);
+                k += ch.txs.size();
+            }
+            // (6) BlockBuilder, everything included: exactly that chunk sequence
+            {
+                auto b = real->GetBlockBuilder();
+                for (size_t r = 0; r < runs.size(); ++r) {
+                    auto cur = b->GetCurrentChunk();
+                    st.steps++;
+                    VCHECK(cur.has_value(), "c25.builder", "builder ended after", r, "of", runs.size(), "chunks");
+                    VCHECK(ids(cur->first, main, "BlockBuilder") == runs[r].txs && same(cur->second, runs[r].rate), "c25.builder", "builder chunk", r, "differs from the chunk implied by the main order");
+                    b->Include();
+                }
+                VCHECK(!b->GetCurrentChunk().has_value(), "c25.builder", "builder reports more chunks than the main order has");
+            }
+            // (7) a walk with skips: after skipping a chunk nothing else of its cluster is reported, everything else stays in order
+            if (!runs.empty()) {
+                auto b = real->GetBlockBuilder();
+                std::set<int> skipped;
+                bool any_skip = false;
+                for (size_t r = 0; r < runs.size(); ++r) {
+                    if (skipped.count(runs[r].cluster)) continue;
+                    auto cur = b->GetCurrentChunk();
+                    st.steps++;
+                    VCHECK(cur.has_value() && ids(cur->first, main, "BlockBuilder(skip walk)") == runs[r].txs && same(cur->second, runs[r].rate), "c25.builder",
+                           "builder with skips: chunk", r, "is not the next chunk of a non-skipped cluster");
+                    if (s.chance(80)) { b->Skip(); skipped.insert(runs[r].cluster); any_skip = true; } else b->Include();
+                }
+                VCHECK(!b->GetCurrentChunk().has_value(), "c25.builder", "builder with skips reports extra chunks");
+                if (any_skip) { n_skip_walks++; st.cls("skip-walk"); }
+            }
+            // (8) worst chunk = last chunk of the order, listed descendants-first
+            {
+                auto [wrefs, wrate] = real->GetWorstMainChunk();
+                st.steps++;
+                if (runs.empty()) VCHECK(wrefs.empty() && wrate.IsEmpty(), "c25.worst-chunk", "non-empty worst chunk for an empty main graph");
+                else {
+                    auto w = ids(wrefs, main, "GetWorstMainChunk");
+                    VCHECK(to_bits(w) == to_bits(runs.back().txs) && same(wrate, runs.back().rate), "c25.worst-chunk", "GetWorstMainChunk is not the last chunk of the main order");
+                    Bits seen;
+                    for (int i : w) { seen.set(i); VCHECK((main.desc[i] & to_bits(w) & ~seen).none(), "c25.worst-chunk", "worst chunk is not listed descendants-first at", i); }
+                }
+            }
+        }
+        // (9) staging: clusters listed consistently and topologically; main/staging diagrams
+        if (staging && !expect_oversized(Level::TOP)) {
+            auto& t = *staging;
+            std::map<std::pair<int64_t, int64_t>, int> stage_chunk_multiset;
+            for (auto& comp : t.components()) {
+                std::vector<int> first;
+                for (int i = 0; i < MAXTX; ++i) if (comp[i]) {
+                    auto got = ids(real->GetCluster(*refs[i], Level::TOP), t, "GetCluster(TOP)");
+                    st.steps++;
+                    VCHECK(to_bits(got) == comp, "c25.structure", "GetCluster(TOP) differs from the model component");
+                    if (first.empty()) { first = got; check_cluster_order(first, t, "staging cluster linearization"); }
+                    else VCHECK(got == first, "c25.order", "members of one staging cluster report different cluster orders");
+                }
+                for (auto& [rate, txs] : strict_chunks(first)) stage_chunk_multiset[{int64_t(rate.fee), rate.size}]++;
+            }
+            if (main_ok) {
+                auto [dm, ds] = real->GetMainStagingDiagrams();
+                n_diagrams++;
+                st.steps++;
+                auto check_side = [&](const std::vector<FeeFrac>& d, std::map<std::pair<int64_t, int64_t>, int> all, const char* side) {
+                    for (size_t k = 0; k < d.size(); ++k) {
+                        if (k) VCHECK(cmp_feerate(FS{d[k - 1].fee, d[k - 1].size}, FS{d[k].fee, d[k].size}) >= 0, "c25.diagrams", side, "diagram feerates are not non-increasing at", k);
+                        auto it = all.find({d[k].fee, d[k].size});
+                        VCHECK(it != all.end() && it->second > 0, "c25.diagrams", side, "diagram contains a chunk that is not a chunk of that graph's cluster linearizations:", d[k].fee, d[k].size);
+                        it->second--;
+                    }
+                    return all; // what was left out
+                };
+                auto left_main = check_side(dm, main_chunk_multiset, "main");
+                auto left_stage = check_side(ds, stage_chunk_multiset, "staging");
+                std::erase_if(left_main, [](auto& kv) { return kv.second == 0; });
+                std::erase_if(left_stage, [](auto& kv) { return kv.second == 0; });
+                VCHECK(left_main == left_stage, "c25.diagrams", "the chunks omitted from the main and staging diagrams are not the same (clusters identical in both)");
+                FS gm, gs;
+                for (auto& f : dm) { gm.fee += f.fee; gm.size += f.size; }
+                for (auto& f : ds) { gs.fee += f.fee; gs.size += f.size; }
+                FS am = sum_of(main.present), as = sum_of(t.present);
+                VCHECK(gs.fee - gm.fee == as.fee - am.fee && gs.size - gm.size == as.size - am.size, "c25.diagrams", "diagram totals do not match the difference between staging and main");
+            }
+        }
+        real->SanityCheck();
+    }
+
+    // ------------------------------------------------------------------------------------------------------ driver
+    void run()
+    {
+        max_count = s.chance(128) ? s.range<unsigned>(1, 8) : s.range<unsigned>(1, 64);
+        max_size = s.chance(40) ? s.range<uint64_t>(1, 200) : s.range<uint64_t>(1, uint64_t{0x3fffff} * 64);
+        uint64_t acceptable = s.range<uint64_t>(0, 10000);
+        real = MakeTxGraph(max_count, max_size, acceptable, [](const TxGraph::Ref& a, const TxGraph::Ref& b) noexcept {
+            return static_cast<const SimTx&>(a).key <=> static_cast<const SimTx&>(b).key;
+        });
+        st.note("limits count=", max_count, " size=", max_size, " acceptable_cost=", acceptable);
+        unsigned nops = 0;
+        while (!s.exhausted() && nops < 2000) {
+            ++nops;
+            bool can_mutate_top = builders.empty() || staging.has_value(); // no main mutators while a BlockBuilder exists
+            unsigned op = s.range<unsigned>(0, 63);
+            st.mix(uint64_t(op));
+            if (op <= 13) { if (can_mutate_top) op_add(); }
+            else if (op <= 29) { if (can_mutate_top) op_dep(); }
+            else if (op <= 31) { if (can_mutate_top) op_remove(); }
+            else switch (op) {
+            case 32: op_destroy_removed(); break;
+            case 33: if (builders.empty()) op_destroy_any(); break;
+            case 34: if (builders.empty()) op_setfee(); break;
+            case 35: op_move_ref(); break;
+            case 36: if (!staging) op_start_staging(); break;
+            case 37: if (staging && builders.empty()) op_commit(); break;
+            case 38: if (staging && s.boolean()) op_abort(); break;
+            case 39: op_dowork(); break;
+            case 40: if (can_mutate_top) op_trim(); break;
+            case 41: if (can_mutate_top) op_make_oversized(); break;
+            case 42: if (builders.size() < 3 && !expect_oversized(TxGraph::Level::MAIN)) op_builder_new(); break;
+            case 43: if (!builders.empty()) op_builder_drop(); break;
+            case 44: case 45: if (!builders.empty()) op_builder_step(); break;
+            case 46: if (s.chance(64)) full_check(); break;
+            default: op_inspect(); break;
+            }
+            max_present = std::max<size_t>(max_present, top().present.count());
+            if ((nops & 15) == 0) real->SanityCheck();
+        }
+        full_check();
+        // wind down: abort staging, full check of main alone, then let Refs outlive the graph
+        builders.clear();
+        if (staging) { if (s.boolean()) op_commit(); else op_abort(); full_check(); }
+        real.reset();
+        for (auto& r : refs) r.reset();
+        st.cls("ops", nops);
+        if (n_staging) st.cls("staging");
+        if (n_commit) st.cls("commit");
+        if (n_abort) st.cls("abort");
+        if (n_oversized_seen) st.cls("oversized-observed");
+        if (n_trim_effective) st.cls("trim-removed-something");
+        if (n_trim_in_staging) st.cls("trim-in-staging");
+        if (n_moves) st.cls("ref-moved");
+        if (n_diagrams) st.cls("main/staging-diagrams-checked");
+        st.cls("full-checks", n_fullchecks);
+        st.cls(max_present <= 8 ? "max-live:<=8" : max_present <= 24 ? "max-live:9-24" : max_present <= 64 ? "max-live:25-64" : "max-live:>64");
+        st.nontrivial = n_staging >= 1 && n_oversized_seen >= 1 && n_trim_effective >= 1;
+        st.mix(uint64_t(std::min(max_count, 9u)));
+    }
+};
+
+} // namespace
+
+VERIF_TARGET(c25_txgraph, nullptr, 16, 2600,
+             "operation sequences (<= 2000 ops, ~3 bytes/op) on one TxGraph with cluster count limit 1..64 (mostly <= 8) and size limit (small or huge), "
+             "up to 96 live transactions: AddTransaction, AddDependency (any Refs incl. removed/empty; cycles skipped), RemoveTransaction (with all "
+             "ancestors or all descendants), Ref destruction (removed ones any time; existing ones with closure over both levels, also while staging "
+             "exists), Ref moves, SetTransactionFee, StartStaging/Commit/Abort, DoWork, Trim, cluster-joining bursts that force oversize, up to 3 "
+             "concurrent BlockBuilders (Include/Skip) with staging mutations meanwhile, all inspectors on MAIN and TOP. Oracle: own naive model "
+             "(presence + transitive closure bit matrices per level); structural answers equal; IsOversized equals the model (main frozen while staging "
+             "exists); periodic and final full check: CompareMainOrder is one total topological order, GetCluster of every member is its restriction, "
+             "chunks derived from GetMainChunkFeerate are contiguous, sum correctly, connected, non-increasing and form the definition's diagram, the "
+             "global order is a sequence of whole chunks with non-increasing feerates, BlockBuilder (all included / with skips) and GetWorstMainChunk "
+             "reproduce it, GetMainStagingDiagrams are sub-multisets of the chunk sets with identical remainders and matching totals; Trim: nothing "
+             "removed unless oversized, removed set descendant-closed, limits hold afterwards; SanityCheck() every 16 ops. "
+             "non-trivial = staging + oversized observed + effective Trim in one sequence; distinct = op-code sequence hash")
+{
+    Sim sim(s, st);
+    sim.run();
+}
